@@ -20,6 +20,7 @@ TLA_CP = "/opt/veriftools/tla/tla2tools.jar:/opt/veriftools/tla/CommunityModules
 # family -> (module, which configs exist)
 FAMILY_MODULE = {
     "join": "JoinLike", "try_join": "JoinLike",
+    "race": "Race", "race_ok": "Race",
 }
 
 # per module: names of the quick / thorough cfg files (without directory)
@@ -29,6 +30,11 @@ MODULE_CFGS = {
                      live_quick="MC_JoinLike_liveq.cfg", live_thorough="MC_JoinLike_live.cfg",
                      mc="MC_JoinLike.tla"),
 }
+for _m in ("Race",):
+    MODULE_CFGS[_m] = dict(mc_quick="MC_%s_quick.cfg" % _m, mc_thorough="MC_%s_thorough.cfg" % _m,
+                           gen_quick="MC_%s_genq.cfg" % _m, gen_thorough="MC_%s_gen.cfg" % _m,
+                           live_quick="MC_%s_liveq.cfg" % _m, live_thorough="MC_%s_live.cfg" % _m,
+                           mc="MC_%s.tla" % _m)
 
 
 def parse_tlc(out):
@@ -56,6 +62,21 @@ def containers_for(cfg):
     """(fam, cont, n, build) combinations of the real code that an L2 configuration stands for."""
     fam = cfg.get("kind") or cfg.get("fam")
     n = cfg["n"]
+    if "conts" in cfg:
+        # L2Env-based modules name the containers they stand for; families without a readiness record
+        # (the caller's waker is passed through) behave identically in all three builds
+        builds = ["std", "alloc", "none"] if not cfg.get("rdy") else (["std"] if cfg.get("sub") else ["alloc", "none"])
+        out = []
+        for b in builds:
+            for cont in cfg["conts"]:
+                if cont == "vec" and b == "none":
+                    continue
+                if cont == "tup" and n == 0 and fam not in ("join", "try_join", "merge"):
+                    continue
+                out.append((fam, cont, n, b))
+                if cont == "tup" and n == 2 and fam in ("join", "race", "merge", "zip", "chain"):
+                    out.append((fam, "ext", n, b))
+        return out
     variant = cfg.get("variant", "arr")
     builds = ["std"] if cfg.get("mode") == "std" else ["alloc", "none"]
     out = []
@@ -178,7 +199,7 @@ def run_for_property(prop, tier, seed, plan, env):
         res["exhaustive"] = True
         # ---- 2. liveness under fairness --------------------------------------------------
         lcfg = cfgs.get("live_" + tier)
-        if lcfg and prop in ("C01", "C20", "C04", "C05"):
+        if lcfg and prop in ("C01", "C20", "C04", "C05", "C06", "C07", "C08", "C09", "C10", "C19"):
             t0 = time.time()
             rc, out = tlc(mcmod, os.path.join(SPECS, lcfg), os.path.join(WORK, "live_%s_%s" % (prop, mod)),
                           workers=max(2, ncpu - 2), xmx="12g", timeout=7200, deque=False)
